@@ -446,7 +446,13 @@ def tab15(units, R):
     n = 0
     for fn in print_family(u):
         cfg = fn.cfg()
-        fbranches = [b for b in cfg.nodes if b.kind == 'branch' and is_mem(b.expr, 'format')]
+        def is_format_test(e):
+            e = strip_casts(e)
+            if is_mem(e, 'format'):
+                return True
+            p = cmp_parts(e)
+            return p is not None and p[2] == 0 and p[1] in ('==', '!=') and is_mem(p[0], 'format')
+        fbranches = [b for b in cfg.nodes if b.kind == 'branch' and is_format_test(b.expr)]
         if not fbranches:
             continue
         for b in fbranches:
@@ -478,7 +484,7 @@ def tab15(units, R):
                 n += 1
                 ok = u.ty(x['ty'])['c'] == 'int'
                 R.ob('TAB15', fn, x, 'format selects a length only', ok, expr_str(x)[:50], key='fmtcond:%s' % expr_str(x)[:40])
-    R.floor('TAB15', 'format-controlled stores and selections', n, 8)
+    R.floor('TAB15', 'format-controlled stores and selections', n, 4)
 
 
 # ---- TAB16 locale -----------------------------------------------------------------------------------------------------------------------
